@@ -245,6 +245,7 @@ def check_all(ctx, module_suffixes=None, funcs=None, rules=('DEADPARAM', 'FORWAR
     out['stores'] = dead_stores(ctx, funcs) + overwritten_attr_stores(ctx, funcs)
     out['returns'] = mixed_returns(ctx, funcs)
     out['shadow'] = instance_shadow_updates(ctx, funcs)
+    out['lengths'] = stale_lengths(ctx, funcs)
     ctx.ok('FORWARD', f"option forwarding in {len(funcs)} functions",
            f"{out.get('params', 0)} parameters examined for use, {out.get('forwarded', 0)} arguments handed "
            f"down under a parameter name, {out.get('defaults', 0)} default pairs compared, "
@@ -447,4 +448,42 @@ def instance_shadow_updates(ctx, funcs, rule='GLOBALS'):
                           f"this creates an instance attribute and leaves {ci.name}.{name} unchanged: the shared counter never "
                           f"advances (every object sees the same value)",
                           key=f"{rule}|{fi.qualname}|shadow|{name}", where=common.loc(fi, x))
+    return n
+
+
+def stale_lengths(ctx, funcs, rule='DEFUSE'):
+    """
+    `n = len(x)` taken before `x` is re-assigned (shortened, reordered,
+    standardised) and read after that re-assignment without being taken
+    again: the length no longer describes the list the later code works on.
+    Statement order at the top level of the function; empty baseline.
+    """
+    n = 0
+    for fi in funcs:
+        body = fi.node.body
+        for i, st in enumerate(body):
+            if not (isinstance(st, ast.Assign) and len(st.targets) == 1 and isinstance(st.targets[0], ast.Name)):
+                continue
+            name = st.targets[0].id
+            for c in ast.walk(st.value):
+                if not (isinstance(c, ast.Call) and dotted(c.func) == 'len' and c.args and isinstance(c.args[0], ast.Name)):
+                    continue
+                seq = c.args[0].id
+                if seq == name:
+                    continue
+                n += 1
+                redef = [j for j in range(i + 1, len(body))
+                         if any(isinstance(y, ast.Name) and isinstance(y.ctx, ast.Store) and y.id == seq for y in ast.walk(body[j]))]
+                if not redef:
+                    continue
+                j = redef[0]
+                used = [k for k in range(j + 1, len(body))
+                        if any(isinstance(y, ast.Name) and isinstance(y.ctx, ast.Load) and y.id == name for y in ast.walk(body[k]))]
+                retaken = [k for k in range(i + 1, len(body))
+                           if any(isinstance(y, ast.Name) and isinstance(y.ctx, ast.Store) and y.id == name for y in ast.walk(body[k]))]
+                if used and not [k for k in retaken if k <= used[0]]:
+                    ctx.violation(rule, f"{fi.qualname}: `{name}` still describes `{seq}` where it is used",
+                                  f"`{norm(st)}` is taken before `{norm(body[j])[:60]}` changes `{seq}`, and `{name}` is read after "
+                                  f"that: the count belongs to the list as it was (a chain that standardisation shortens is treated "
+                                  f"as longer than it is)", key=f"{rule}|{fi.qualname}|stale-len|{name}", where=common.loc(fi, st))
     return n
